@@ -80,6 +80,8 @@ fn main() {
             "end" => {
                 dom = None;
                 writeln!(out, "end").unwrap();
+                // the driver's watchdog reads the output case by case: a hung case is the first one without its `end`
+                out.flush().unwrap();
             },
             _ => {
                 let res = match dom.as_mut() {
